@@ -88,7 +88,7 @@ def main():
             demo = os.path.join(HERE, "seeded", name, "demo.py")
             import re
             d0 = mut.make_copy({"name": name + "-unpatched", "edits": []})
-            open(os.path.join(d0, "demo.py"), "w").write(re.sub(r"/tmp/wt-C\d+", d0, open(demo).read()))
+            open(os.path.join(d0, "demo.py"), "w").write(re.sub(r"/tmp/w[t\d]-C\d+", d0, open(demo).read()))
             rc0, out0 = sh([PY, "-B", os.path.join(d0, "demo.py")], d0, {"PYTHONPATH": d0, "PYTHONDONTWRITEBYTECODE": "1"})
             shutil.rmtree(d0, ignore_errors=True)
             try:
@@ -101,7 +101,7 @@ def main():
                 shutil.copy(demo, os.path.join(d, "demo.py"))
                 src = open(os.path.join(d, "demo.py")).read()
                 import re
-                src = re.sub(r"/tmp/wt-C\d+", d, src)
+                src = re.sub(r"/tmp/w[t\d]-C\d+", d, src)
                 open(os.path.join(d, "demo.py"), "w").write(src)
                 rc1, out = sh([PY, "-B", os.path.join(d, "demo.py")], d, {"PYTHONPATH": d, "PYTHONDONTWRITEBYTECODE": "1"})
             finally:
